@@ -70,7 +70,7 @@ def gen_case(rng):
             rel.add((a, b))
     # imports: start from a conforming realisation, then perturb a little so that both verdicts occur
     E = set()
-    for (a, b) in rel:
+    for (a, b) in sorted(rel):
         E.add((rng.choice(sorted(denote(nodes, a))), rng.choice(sorted(denote(nodes, b)))))
     r = rng.random()
     if r < 0.25 and E:
@@ -109,7 +109,17 @@ def _job(args):
         wire, metas = [], []
         for i in range(n):
             c = gen_case(rng)
-            arch = rules.make_arch_direct(c["nodes"], c["edges"])
+            lim = None
+            if rng.random() < 0.1:
+                # DiagramRule on a LEVEL-LIMITED architecture whose limited view is the generated graph
+                n2, e2, lim = rules.refine_for_limit(rng, c["nodes"], c["edges"])
+                arch = rules.make_arch_direct(n2, e2, lim)
+                c["graph_for_model"] = (n2, e2, lim)
+                obs_n, obs_e = rules.observe(arch, [], [])
+                c["edges"] = sorted(set(obs_e))             # the oracle judges the architecture's own (limited) import relation
+                out["stats"]["level_limited"] = out["stats"].get("level_limited", 0) + 1
+            else:
+                arch = rules.make_arch_direct(c["nodes"], c["edges"])
             # components mentioned nowhere in the relation are only in the diagram if declared: declare all
             verdicts = set()
             for only in (True, False):
@@ -153,7 +163,7 @@ def _job(args):
                                 out["violations"].append((dict(case, single_rule=rules._jsonable_spec(spec), single_message=o[1][:300]),
                                                           "the aggregated error does not contain the message of a violated pairwise rule", {"kind": "aggregation"}))
                 enc = rules.Enc()
-                w = [22, [enc.graph_built(c["nodes"], c["edges"]), only, [], [enc.name(x) for x in c["comps"]], [[enc.name(a), enc.name(b)] for a, b in c["rel"]]]]
+                w = [22, [enc.graph_built(*c["graph_for_model"]) if c.get("graph_for_model") else enc.graph_built(c["nodes"], c["edges"]), only, [], [enc.name(x) for x in c["comps"]], [[enc.name(a), enc.name(b)] for a, b in c["rel"]]]]
                 wire.append(w)
                 metas.append((enc, r2, case))
             if c["rel"] and c["edges"]:
